@@ -267,7 +267,8 @@ pub fn zlib_stored_blocks(data: &[u8], block: usize) -> (Vec<u8>, Vec<usize>) {
 pub fn gen_tiny_spec(r: &mut Rng) -> SpriteSpec {
     let fmt = *r.pick(&[Fmt::Rgba, Fmt::Gray, Fmt::Indexed]);
     let (w, h) = (1 + r.below(5) as u16, 1 + r.below(5) as u16);
-    let nframes = 1 + r.usize_below(2);
+    // a quarter of the tiny sprites have 10 frames (caches with a handful of slots start evicting)
+    let nframes = if r.chance(1, 4) { 10 } else { 1 + r.usize_below(2) };
     let mut s = SpriteSpec {
         width: w,
         height: h,
